@@ -206,7 +206,7 @@ def _merge_shuffle_blocks(blocks, generator):
         data = np.hstack(data)
         row = np.hstack(row)
         col = np.hstack(col)
-        matrix = sp.coo_matrix((data, (row, col)), shape=(N, N))
+        matrix = sp.coo_matrix((data, (row, col)), shape=(N, N), dtype=complex)
     else:
         matrix = np.zeros((N,N), dtype=complex)
         for block in blocks:
